@@ -1,4 +1,5 @@
 import LK.Generated.ImpC19
+import Mathlib.Algebra.Order.Field.Rat
 /-!
 # C19 — the `linear` transform of the stochastic ranker, as translated from the source, is the model's `linearWeights`
 -/
@@ -14,5 +15,35 @@ theorem max_eq (xs : List Q) : npMax xs = LK.Stoch.maxQ xs := by cases xs <;> rf
 theorem linearWeightsT_eq (scores : List Q) : linearWeightsT scores = LK.Stoch.linearWeights scores := by
   unfold linearWeightsT LK.Stoch.linearWeights
   simp only [sum_eq, min_eq, max_eq, npSubScalar, npDivScalar, npOnesLike, List.map_map, List.length_map, Function.comp_def]
+
+/-- the exponential-race keys `log u / max(w, ε)` are the model's `keys` -/
+theorem keys_eq (logu weights : List Q) (eps : Q) : npDiv logu (npMaximumScalar weights eps) = LK.Stoch.keys logu weights eps := by
+  unfold npDiv npMaximumScalar LK.Stoch.keys
+  induction logu generalizing weights with
+  | nil => simp
+  | cons l ls ih =>
+    cases weights with
+    | nil => simp
+    | cons w ws =>
+      simp only [List.map_cons, List.zipWith_cons_cons, ih ws]
+      congr 2
+      by_cases h : w < eps
+      · simp only [h, if_true]; exact max_eq_right (le_of_lt h)
+      · simp only [h, if_false]; exact max_eq_left (not_lt.mp h)
+
+/-- **C19 (the statements after the transform):** the positions picked are the model's — the `n` best exponential-race keys -/
+theorem pickT_eq (logu weights : List Q) (eps : Q) (n : Int) :
+    pickT logu weights eps n = LK.TopN.argtopn ((LK.Stoch.keys logu weights eps).map some) n := by
+  unfold pickT
+  simp only [keys_eq]
+
+/-- …so the model's `stochasticRank` is the translated tail applied to the effective length, mapped back to the original positions -/
+theorem stochasticRank_eq_pickT (scores : List LK.Stoch.Score) (cfg run : Option Int) (weights logu : List Q) (eps : Q) :
+    LK.Stoch.stochasticRank scores cfg run weights logu eps =
+      (let eligible := (List.range scores.length).filter (fun p => (scores.getD p .nan).isFinite)
+       if eligible.length = 0 then []
+       else (pickT logu weights eps ((LK.Stoch.effN cfg run eligible.length : Nat) : Int)).filterMap (fun j => eligible[j]?)) := by
+  unfold LK.Stoch.stochasticRank
+  simp only [pickT_eq]
 
 end LK.NpOps
